@@ -183,13 +183,15 @@ pub struct Ctx {
     pub known: Known,
     /// strict mode (replay): known findings are reported too
     pub strict: bool,
+    /// survey mode (VERIF_LIST_SIGS=1): every signature is recorded, none stops the run
+    pub list_all: bool,
 }
 
 impl Ctx {
     /// Handle an oracle failure: returns Ok(()) if it is a listed known finding (recorded in
     /// `st`), Err otherwise.
     pub fn report(&self, st: &mut CaseStats, v: Violation) -> Result<(), Violation> {
-        if !self.strict && self.known.is_known(self.id, &v.sig) {
+        if !self.strict && (self.known.is_known(self.id, &v.sig) || self.list_all) {
             st.known.push(v.sig);
             Ok(())
         } else {
@@ -300,7 +302,7 @@ pub fn run_prop<P: Prop>(p: P, tier: Tier, seed: u64, replay: Option<PathBuf>) -
     let t0 = Instant::now();
 
     if let Some(path) = replay {
-        let ctx = Ctx { id, tier, seed, known, strict: true };
+        let ctx = Ctx { id, tier, seed, known, strict: true, list_all: false };
         return match replay_file(&p, &path, &ctx) {
             Ok(Some(v)) => {
                 println!("replay: oracle fired: [{}] {}", v.sig, v.msg);
@@ -325,7 +327,7 @@ pub fn run_prop<P: Prop>(p: P, tier: Tier, seed: u64, replay: Option<PathBuf>) -
     // 1. deterministic replays: known findings (must print KNOWN-FINDING while they still
     //    fail) and regression files of repaired defects (must pass).
     {
-        let strict = Ctx { id, tier, seed, known: known.clone(), strict: true };
+        let strict = Ctx { id, tier, seed, known: known.clone(), strict: true, list_all: false };
         for (prop, sig, what, rp) in known.findings.iter() {
             if prop != id {
                 continue;
@@ -374,7 +376,7 @@ pub fn run_prop<P: Prop>(p: P, tier: Tier, seed: u64, replay: Option<PathBuf>) -
     }
 
     // 2. fixed cases, then random shards
-    let ctx = Arc::new(Ctx { id, tier, seed, known: known.clone(), strict: false });
+    let ctx = Arc::new(Ctx { id, tier, seed, known: known.clone(), strict: false, list_all: std::env::var("VERIF_LIST_SIGS").is_ok() });
     let stop = Arc::new(AtomicBool::new(false));
     let failure: Arc<Mutex<Option<Fail<P::Case>>>> = Arc::new(Mutex::new(None));
 
@@ -509,7 +511,7 @@ pub fn run_prop<P: Prop>(p: P, tier: Tier, seed: u64, replay: Option<PathBuf>) -
                          "tier": tier.name(), "case": serde_json::to_value(&case).unwrap() }),
             );
             // re-execute once from the file, without proptest
-            let strict = Ctx { id, tier, seed, known: known.clone(), strict: true };
+            let strict = Ctx { id, tier, seed, known: known.clone(), strict: true, list_all: false };
             match replay_file(&*p, &path, &strict) {
                 Ok(Some(v2)) => {
                     println!("violation: [{}] {}", v2.sig, v2.msg);
